@@ -22,7 +22,7 @@ NPROC = int(os.environ.get("VERIF_LANE_PROCS", "16"))
 T = {
     "C13": {
         "quick": [("miri", "c13", 64, 16, 0, "sb")],
-        "thorough": [("miri", "c13", 64, 64, 0, "sb"), ("miri", "smoke", 3, 3, 0, "nosb"), ("asan", "C13")],
+        "thorough": [("miri", "c13", 64, 64, 0, "sb"), ("miri", "c13fill", 4, 4, 0, "sb"), ("miri", "smoke", 3, 3, 0, "nosb"), ("asan", "C13")],
     },
     "C12": {
         "quick": [("miri", "c12", 16, 16, 10, "sb")],
